@@ -163,6 +163,15 @@ func VerifC19Reject(args []string) {
 			vfReach("good-length")
 			vfAssert(err == nil && r != nil, "a valid length inside 1..4 is rejected")
 		}
+	case "datetypes":
+		_, e0 := op(nil, []Value{})
+		_, e1 := op(nil, []Value{int64(1)})
+		_, e2 := op(nil, []Value{"2020-01-01", "2006-01-02", "x"})
+		_, e3 := op(nil, []Value{nil})
+		_, e4 := op(nil, []Value{"2020-01-01", int64(3)})
+		_, e5 := op(nil, []Value{true, "2006-01-02"})
+		vfReach("types")
+		vfAssert(e0 != nil && e1 != nil && e2 != nil && e3 != nil && e4 != nil && e5 != nil, "wrong parameter types or counts are accepted by a date operator")
 	case "types":
 		_, e0 := op(nil, []Value{})
 		_, e1 := op(nil, []Value{int64(1)})
